@@ -6,7 +6,9 @@ class, or — rarely — a chunk that makes every later build fail) and a histor
     input            loader.input(next chunk)              (the empty text once the chunks are used up)
     build            loader.build_metamodel(IntegerGenerator())  -> metamodel number #builds
     mut k m          a mutation of the k-th built metamodel: append/insert/delete_attribute,
-                     define_unique_identifier, new, delete, setattr, relate, unrelate
+                     define_unique_identifier, new (without and WITH arguments: batch relate), delete, setattr,
+                     relate, unrelate
+    clone k j K i    metamodel k clones the i-th created instance of class K of metamodel j
 
   D  (property predicate, evaluated on the implementation after EVERY step):
        * every built metamodel other than the one the step targeted is unchanged: same canonical dump (classes,
@@ -30,7 +32,7 @@ from sexp import Sym, dumps
 
 PROP = 'C18'
 RULE = ('exhaustive histories up to length 4 (thorough: 5) over the alphabet {input, build} + {mut k m : k in {0,1}, '
-        'm in a fixed list of 9 mutations}, and of length 5 (thorough: 6) over a reduced alphabet of 5 mutations, on a '
+        'm in a fixed list of 10 mutations} + 3 clone operations, and of length 5 (thorough: 6) over a reduced alphabet of 5 mutations, on a '
         'fixed two-class scenario, only histories with a build whose mutations target an already built metamodel; '
         'plus random histories of length <= 12 over '
         'generated schemas and populations with randomly chosen mutations. Non-trivial = at least two metamodels were '
@@ -75,8 +77,12 @@ FIXED_CHUNKS = [
      {'t': 'cls', 'kind': 'KB', 'attrs': [['b0', 'UNIQUE_ID'], ['b1', 'INTEGER']]},
      {'t': 'assoc', 'rel': 'R1', 'sk': 'KB', 'scard': 'MC', 'skeys': ['b1'], 'sph': '', 'tk': 'KA', 'tcard': '1C',
       'tkeys': ['a0'], 'tph': ''},
+     {'t': 'cls', 'kind': 'KC', 'attrs': [['c0', 'UNIQUE_ID'], ['c1', 'INTEGER']]},
+     {'t': 'assoc', 'rel': 'R2', 'sk': 'KC', 'scard': 'MC', 'skeys': ['c1'], 'sph': '', 'tk': 'KA', 'tcard': '1C',
+      'tkeys': ['a0'], 'tph': ''},
      {'t': 'uniq', 'kind': 'KA', 'name': 'I1', 'attrs': ['a0']},
      {'t': 'insert', 'kind': 'KA', 'names': None, 'vals': [['i', 1], ['s', 'a'], ['u', 5]], 'lex': ['1', "'a'", '5']},
+     {'t': 'insert', 'kind': 'KC', 'names': None, 'vals': [['u', 4], ['i', 1]], 'lex': ['4', '1']},
      {'t': 'insert', 'kind': 'KB', 'names': None, 'vals': [['u', 2], ['i', 1]], 'lex': ['2', '1']},
      {'t': 'insert', 'kind': 'KB', 'names': None, 'vals': [['u', 3], ['i', 9]], 'lex': ['3', '9']}],
     [{'t': 'insert', 'kind': 'KA', 'names': None, 'vals': [['i', 9], ['s', ''], ['u', 0]], 'lex': ['9', "''", '0']}],
@@ -91,8 +97,10 @@ FIXED_MUTS = [
     ['relate', 0, 1, 0],
     ['unrelate', 0, 0, 0],
     ['insert-attr', 'KB', 0, 'y1', 'REAL'],
+    ['new-args', 'KC', [['u', 9], ['i', 1]]],
 ]
-REDUCED = [0, 2, 3, 4, 6]
+FIXED_CLONES = [['clone', 0, 1, 'KC', 0], ['clone', 1, 0, 'KC', 0], ['clone', 0, 0, 'KC', 0]]
+REDUCED = [0, 3, 4, 6, 9]
 
 
 def _valid_histories(alphabet, length):
@@ -104,6 +112,8 @@ def _valid_histories(alphabet, length):
         for op in alphabet:
             if op[0] == 'mut' and op[1] >= builds:
                 continue
+            if op[0] == 'clone' and (op[1] >= builds or op[2] >= builds):
+                continue
             prefix.append(op)
             yield from rec(prefix, builds + (1 if op[0] == 'build' else 0), left - 1)
             prefix.pop()
@@ -111,7 +121,8 @@ def _valid_histories(alphabet, length):
 
 
 def _simulate(chunks, ops):
-    """(kind -> number of instances created so far) per metamodel, as the history unfolds; used to pick targets"""
+    """per metamodel: kind -> number of instances created so far ('cnt'), deleted (kind, id) pairs ('dead') and
+    whether an attribute list was edited ('edited'), as the history unfolds; used to pick targets"""
     read = 0
     metas = []
     for op in ops:
@@ -125,11 +136,17 @@ def _simulate(chunks, ops):
                         cnt[s['kind']] = cnt.get(s['kind'], 0) + 1
                     elif s['t'] == 'cls':
                         cnt.setdefault(s['kind'], 0)
-            metas.append(cnt)
-        elif op[0] == 'mut' and op[2][0] == 'new' and op[1] < len(metas):
-            k = op[2][1]
-            if k in metas[op[1]]:
-                metas[op[1]][k] += 1
+            metas.append({'cnt': cnt, 'dead': set(), 'edited': False})
+        elif op[0] == 'mut' and op[1] < len(metas):
+            m, mut = metas[op[1]], op[2]
+            if mut[0] in ('new', 'new-args') and mut[1] in m['cnt']:
+                m['cnt'][mut[1]] += 1
+            elif mut[0] == 'delete':
+                m['dead'].add((mut[1], mut[2]))
+            elif mut[0] in ('append-attr', 'insert-attr', 'delete-attr'):
+                m['edited'] = True
+        elif op[0] == 'clone' and op[1] < len(metas) and op[3] in metas[op[1]]['cnt']:
+            metas[op[1]]['cnt'][op[3]] += 1
     return metas, read
 
 
@@ -160,6 +177,7 @@ def _random_case(rng, maxlen):
     refs = {}
     for a in assocs:
         refs.setdefault(a['sk'], set()).update(a['skeys'])
+    chained = G.has_chain(stmts)
     ops = []
     n = rng.randint(2, maxlen)
     extra = 0
@@ -176,12 +194,39 @@ def _random_case(rng, maxlen):
             ops.append(['build'])
             continue
         k = rng.randrange(len(metas))
-        cnt = metas[k]
+        cnt = metas[k]['cnt']
+        dead = metas[k]['dead']
         c = rng.choice(classes)
         kind = c['kind']
         names = [a[0] for a in c['attrs']]
         m = rng.choice(['append-attr', 'insert-attr', 'delete-attr', 'define-unique', 'new', 'new', 'delete', 'set-attr',
-                        'set-attr', 'relate', 'relate', 'unrelate'])
+                        'set-attr', 'relate', 'relate', 'unrelate', 'new-args', 'new-args', 'clone', 'clone'])
+        if m in ('new-args', 'clone') and (chained or metas[k]['edited']):
+            m = 'new'
+        if m == 'new-args':
+            if kind not in cnt:
+                m = 'new'
+            else:
+                vals = []
+                for n_, ty in c['attrs']:
+                    if n_ in refs.get(kind, ()) and rng.random() < 0.2:
+                        vals.append(None)
+                    else:
+                        vals.append([G.TAG[ty], rng.choice(G.POOL[ty])])
+                ops.append(['mut', k, ['new-args', kind, vals]])
+                continue
+        if m == 'clone':
+            srcs = [j for j, mj in enumerate(metas) if not mj['edited'] and mj['cnt'].get(kind)]
+            if not srcs or kind not in cnt:
+                m = 'new'
+            else:
+                j = rng.choice(srcs)
+                ids = [i for i in range(metas[j]['cnt'][kind]) if (kind, i) not in metas[j]['dead']]
+                if not ids:
+                    m = 'new'
+                else:
+                    ops.append(['clone', k, j, kind, rng.choice(ids)])
+                    continue
         if m == 'append-attr':
             extra += 1
             mut = [m, kind, 'x%d' % extra, rng.choice(G.TYPES)]
@@ -213,7 +258,7 @@ def _random_case(rng, maxlen):
             else:
                 i, a = rng.choice(ok)
                 s, t = rng.randrange(cnt[a['sk']]), rng.randrange(cnt[a['tk']])
-                if a['sk'] == a['tk'] and s == t:
+                if (a['sk'] == a['tk'] and s == t) or (a['sk'], s) in dead or (a['tk'], t) in dead:
                     mut = ['new', kind]
                 else:
                     mut = [m, i, s, t]
@@ -222,8 +267,8 @@ def _random_case(rng, maxlen):
 
 
 def generate(ctx):
-    alphabet = [['input'], ['build']] + [['mut', k, m] for k in (0, 1) for m in FIXED_MUTS]
-    reduced = [['input'], ['build']] + [['mut', k, FIXED_MUTS[i]] for k in (0, 1) for i in REDUCED]
+    alphabet = [['input'], ['build']] + [['mut', k, m] for k in (0, 1) for m in FIXED_MUTS] + FIXED_CLONES
+    reduced = [['input'], ['build']] + [['mut', k, FIXED_MUTS[i]] for k in (0, 1) for i in REDUCED] + FIXED_CLONES[:2]
     full_len = ctx.pick(4, 5)
     for n in range(1, full_len + 1):
         for h in _valid_histories(alphabet, n):
@@ -254,23 +299,30 @@ class Handle(object):
 
 
 def _canon_val(v, ty):
-    ty = ty.upper()
+    """by the value's own class (an edited attribute list can pair a value with a column of another type)"""
     if v is None:
         return Sym('none')
-    if ty == 'BOOLEAN' and isinstance(v, bool):
+    if isinstance(v, bool):
         return [Sym('b'), Sym('T') if v else Sym('F')]
-    if ty == 'INTEGER' and isinstance(v, int) and not isinstance(v, bool):
-        return [Sym('i'), v]
-    if ty == 'UNIQUE_ID' and isinstance(v, int) and not isinstance(v, bool) and v >= 0:
-        return [Sym('u'), v]
-    if ty == 'STRING' and isinstance(v, str):
+    if isinstance(v, int):
+        return [Sym('n'), v]
+    if isinstance(v, str):
         return [Sym('s'), v]
-    if ty == 'REAL' and isinstance(v, (float, int)) and not isinstance(v, bool):
+    if isinstance(v, float):
         from fractions import Fraction
         f = Fraction(v) * 10 ** 6
         if f.denominator == 1:
             return [Sym('r'), f.numerator]
     return [Sym('odd'), repr(v)]
+
+
+def _unify_ints(x):
+    """the model distinguishes INTEGER and UNIQUE_ID values, Python does not"""
+    if isinstance(x, list):
+        if len(x) == 2 and isinstance(x[0], Sym) and x[0] in ('i', 'u') and isinstance(x[1], int):
+            return [Sym('n'), x[1]]
+        return [_unify_ints(e) for e in x]
+    return x
 
 
 def dump(h):
@@ -408,6 +460,16 @@ def _apply(h, mut, stmts_assocs):
             inst = m.new(mut[1])
             h.created.setdefault(mut[1], []).append(inst)
             h.cid[id(inst)] = len(h.created[mut[1]]) - 1
+        elif kind == 'new-args':
+            mc = m.find_metaclass(mut[1])
+            before = len(mc.storage)
+            try:
+                m.new(mut[1], *[None if v is None else G.py_value(v) for v in mut[2]])
+            finally:
+                if len(mc.storage) > before:         # the instance stays even when the batch relate raises
+                    inst = mc.storage[-1]
+                    h.created.setdefault(mut[1], []).append(inst)
+                    h.cid[id(inst)] = len(h.created[mut[1]]) - 1
         elif kind == 'delete':
             m.find_metaclass(mut[1])
             _x.delete(h.created[mut[1]][mut[2]])
@@ -433,6 +495,8 @@ def _apply(h, mut, stmts_assocs):
         return Sym('UnrelateException')
     except _x.UnknownClassException:
         return Sym('UnknownClassException')
+    except _x.UnknownLinkException:
+        return Sym('UnknownLinkException')
     except (AttributeError, RecursionError):
         # RelateException / UnrelateException format both instances with str(); after append_attribute an older
         # instance lacks the new attribute and Class.__str__ raises AttributeError (or recurses through a cyclic chain
@@ -446,6 +510,30 @@ def _apply(h, mut, stmts_assocs):
         if kind in ('delete', 'set-attr', 'relate', 'unrelate') and isinstance(e, (IndexError, KeyError)):
             return Sym('no-such-instance')
         raise
+
+
+def _clone(h, src, kind, idx):
+    """h.m.clone(instance (kind, idx) of src.m) -> result symbol"""
+    if kind.upper() not in src.m.metaclasses or idx >= len(src.created.get(kind, ())):
+        return Sym('unmodelled')            # there is no such instance to clone
+    inst = src.created[kind][idx]
+    try:
+        mc = h.m.find_metaclass(kind)
+    except _x.UnknownClassException:
+        return Sym('UnknownClassException')
+    before = len(mc.storage)
+    try:
+        h.m.clone(inst)
+        return Sym('ok')
+    except _x.RelateException:
+        return Sym('RelateException')
+    except _x.UnknownLinkException:
+        return Sym('UnknownLinkException')
+    finally:
+        if len(mc.storage) > before:
+            new = mc.storage[-1]
+            h.created.setdefault(kind, []).append(new)
+            h.cid[id(new)] = len(h.created[kind]) - 1
 
 
 def _snapshot(roots):
@@ -476,9 +564,10 @@ def run_impl(case):
         before = [(dump(h), ser(h)) for h in handles]
         target = None
         res = Sym('ok')
-        stats['op_' + (op[0] if op[0] != 'mut' else op[2][0])] = stats.get('op_' + (op[0] if op[0] != 'mut' else op[2][0]), 0) + 1
+        opname = 'op_' + (op[2][0] if op[0] == 'mut' else op[0])
+        stats[opname] = stats.get(opname, 0) + 1
         # objects every NON-targeted party can reach, before the step
-        if op[0] == 'mut' and op[1] < len(handles) and handles[op[1]].m is not None:
+        if op[0] in ('mut', 'clone') and op[1] < len(handles) and handles[op[1]].m is not None:
             target = op[1]
         roots = [('loader.statements', loader.statements)] + \
                 [('meta%d' % j, h.m) for j, h in enumerate(handles) if j != target and h.m is not None]
@@ -512,6 +601,13 @@ def run_impl(case):
                 fail('later-build-differs', 'build number %d differs from the build of a fresh loader fed the same %d input(s): %s vs %s'
                      % (len(handles) - 1, len(accepted), dumps(dump(h))[:600], dumps(dump(fh))[:600]))
             _probe_sharing(loader, handles, fail, stats)
+        elif op[0] == 'clone':
+            if target is None:
+                res = Sym('no-target')
+            elif op[2] >= len(handles) or handles[op[2]].m is None:
+                res = Sym('no-source')
+            else:
+                res = _clone(handles[target], handles[op[2]], op[3], op[4])
         else:
             if target is None:
                 res = Sym('no-target')
@@ -580,6 +676,8 @@ def _enc_mut(mut):
         return [Sym(k), mut[1], mut[2], list(mut[3])]
     if k == 'new':
         return [Sym(k), mut[1]]
+    if k == 'new-args':
+        return [Sym(k), mut[1], [G.enc_val(v) for v in mut[2]]]
     if k == 'delete':
         return [Sym(k), mut[1], mut[2]]
     if k == 'set-attr':
@@ -590,6 +688,8 @@ def _enc_mut(mut):
 def _enc_op(op, case):
     if op[0] == 'mut':
         return [Sym('mut'), op[1], _enc_mut(op[2])]
+    if op[0] == 'clone':
+        return [Sym('clone'), op[1], op[2], op[3], op[4]]
     return [Sym(op[0])]
 
 
@@ -604,12 +704,12 @@ def model_line(case):
         elif op[0] == 'build':
             out.append([Sym('build')])
         else:
-            out.append([Sym('mut'), op[1], _enc_mut(op[2])])
+            out.append(_enc_op(op, case))
     return dumps(out)
 
 
 def model_obs(case, ans):
-    return [[st[0]] + [_digest(d) for d in st[1:]] for st in ans]
+    return [[st[0]] + [_digest(_unify_ints(d)) for d in st[1:]] for st in ans]
 
 
 def shrink_candidates(case):
@@ -626,9 +726,14 @@ def shrink_candidates(case):
                         ok = False
                         break
                     new.append(['mut', o[1] - (1 if o[1] > k else 0), o[2]])
+                elif o[0] == 'clone':
+                    if k in (o[1], o[2]):
+                        ok = False
+                        break
+                    new.append(['clone', o[1] - (1 if o[1] > k else 0), o[2] - (1 if o[2] > k else 0), o[3], o[4]])
                 else:
                     new.append(o)
             if ok:
                 yield dict(case, ops=new)
-        elif ops[i][0] == 'mut':
+        elif ops[i][0] in ('mut', 'clone'):
             yield dict(case, ops=ops[:i] + ops[i + 1:])
